@@ -17,6 +17,7 @@ import (
 	"go.uber.org/zap/zapcore"
 
 	"github.com/celestiaorg/go-header"
+	"github.com/celestiaorg/go-header/verifhook"
 )
 
 var log = logging.Logger("header/store")
@@ -251,6 +252,7 @@ func (s *Store[H]) GetByHeight(ctx context.Context, height uint64) (H, error) {
 
 	// if the requested 'height' was not yet published
 	// we subscribe to it
+	verifhook.At("store.GetByHeight.beforeWait")
 	err := s.heightSub.Wait(ctx, height)
 	if err != nil && !errors.Is(err, errElapsedHeight) {
 		return zero, fmt.Errorf("awaiting header %d with head %d: %w", height, s.Height(), err)
@@ -446,15 +448,19 @@ func (s *Store[H]) flushLoop(ctx context.Context) {
 	defer close(s.writesDn)
 
 	flush := func(headers []H) {
+		verifhook.At("store.flush.begin")
 		s.ensureInit(headers)
 		// add headers to the pending and ensure they are accessible
 		s.pending.Append(headers...)
 		// always inform heightSub about new headers seen.
+		verifhook.At("store.flush.afterPendingAppend")
 		s.heightSub.Notify(getHeights(headers...)...)
+		verifhook.At("store.flush.afterNotify")
 		// advance head and tail if we don't have gaps.
 		// TODO(@Wondertan): Beware of the performance penalty of this approach, which always makes a at least one
 		// datastore lookup for both Tail and Head.
 		s.advanceHead(ctx)
+		verifhook.At("store.flush.afterAdvanceHead")
 		s.recedeTail(ctx)
 		// don't flush and continue if pending batch is not grown enough,
 		// and Store is not stopping(headers == nil)
@@ -481,6 +487,7 @@ func (s *Store[H]) flushLoop(ctx context.Context) {
 		}
 
 		s.metrics.flush(ctx, time.Since(startTime), s.pending.Len(), false)
+		verifhook.At("store.flush.afterCommit")
 		// reset pending
 		s.pending.Reset()
 	}
